@@ -33,7 +33,6 @@ func (P *extPoint) getXY() (x, y *mod.Int) {
 }
 
 func (P *extPoint) String() string {
-	P.normalize()
 	buf, _ := P.MarshalBinary()
 	return hex.EncodeToString(buf)
 }
@@ -43,8 +42,9 @@ func (P *extPoint) MarshalSize() int {
 }
 
 func (P *extPoint) MarshalBinary() ([]byte, error) {
-	P.normalize()
-	return P.c.encodePoint(&P.X, &P.Y), nil
+	Q := P.Clone().(*extPoint) //nolint:errcheck // read-only: normalise a copy, never the shared receiver
+	Q.normalize()
+	return P.c.encodePoint(&Q.X, &Q.Y), nil
 }
 
 func (P *extPoint) UnmarshalBinary(b []byte) error {
@@ -143,8 +143,9 @@ func (P *extPoint) Pick(rand cipher.Stream) kyber.Point {
 
 // Extract embedded data from a point group element
 func (P *extPoint) Data() ([]byte, error) {
-	P.normalize()
-	return P.c.data(&P.X, &P.Y)
+	Q := P.Clone().(*extPoint) //nolint:errcheck // read-only: normalise a copy, never the shared receiver
+	Q.normalize()
+	return P.c.data(&Q.X, &Q.Y)
 }
 
 // Add two points using optimized extended coordinate addition formulas.
